@@ -300,7 +300,7 @@ PROPERTIES = {
         'assumptions': ['A-PO-STORE: variables_map::store never replaces a value stored earlier unless it is defaulted', 'A-PO-NOTIFY: notify applies every stored value to its bound variable, in option-name order',
                         'A-PO-THROW: parse_command_line / parse_config_file / store throw a std::exception on an unknown option or a malformed value', 'A-PO-DEFAULT: an option not given has defaulted() == true and carries the registered default',
                         'AST pattern extraction of the registration table, the option groups, the guards of the alias copies and main\'s prologue (a change of shape gives exit 2, not a verdict)'],
-        'uncovered': ['the library behaviour itself (exercised on every thorough run by the whole-program scenario `options` and by po_replay, not proved)', 'the documented default values (no machine-readable source to compare with)', 'legal-value domains of individual options'],
+        'uncovered': ['a malformed value in a config file for an option that is ALSO given on the command line is never looked at (boost store() skips options that already have a value): the run goes on with the command-line value, no message (observed: StepsPerTs=abc in the file with -N 10); the refusals are claimed for values that would be used', 'the library behaviour itself (exercised on every thorough run by the whole-program scenario `options` and by po_replay, not proved)', 'the documented default values (no machine-readable source to compare with)', 'legal-value domains of individual options'],
         'explanation': 'obligations over facts extracted from the real AST of the ProgramOptions constructor, parse() and the prologue of main',
         'technique': 'contract over AST-extracted facts (store order, option groups, guard chains of the legacy-name copies, catch handlers) under enumerated library contracts for boost::program_options; whole-program scenarios as bounded stand-in for the library part',
     },
